@@ -29,14 +29,19 @@ RULE = (
     "cubic_bezier_from_ellipse call are recorded and given to the model), add_2d_polyline without bulges and converter.from_vertices; X9 every add_bezier4p call made by "
     "make_path(entity) over the entity generator of O5 (path before + curves -> path after); X10 the parameter prelude of "
     "ConstructionEllipse.flattening (param, end_param, first step: the model's exact values rounded to double); X11 "
-    "converter.from_hatch_edge_path on generated line/arc edge paths (all connection cases, several loops). "
+    "converter.from_hatch_edge_path on generated line/arc edge paths (all connection cases, several loops); X12 NumpyPath2d(path) for "
+    "generated multi-paths: arrays, sub_paths(), reverse(), has_sub_paths, to_path(), extend(); X13 NumpyPath2d.flattening (both Bezier twins) "
+    "incl. sub-paths that begin with a curve directly after the MOVE_TO. "
     "oracle (real code only): O1 arcs/circles (sagitta of every chord <= distance, vertices on the circle, equal counter-clockwise turns, "
     "ends; sagitta around r, 2r, ulp neighbours); O2-O4 Bezier twins / Bezier / BSpline / ellipse (parameters strictly increasing, ends, "
     ">= segments chords (per knot span), vertices on the curve by independent evaluation, curve point at the middle parameter within "
     "distance of the chord; non power-of-two segments, six decades of tolerance); O5 make_path(entity) for LINE CIRCLE ARC ELLIPSE SPLINE "
     "LWPOLYLINE POLYLINE2D/3D HATCH against an independent parametrisation of the entity in WCS (start, end, direction, deviation) and "
     "Path.flattening = concatenation of the per-curve flattenings; O6 path -> polylines3d/2d/lwpolylines/hatches/splines/lines -> path, "
-    "multi-paths, NumpyPath2d, nesting; O7 full circles as closed two-bulge LWPOLYLINE far from the origin."
+    "multi-paths, NumpyPath2d, nesting; O7 full circles as closed two-bulge LWPOLYLINE far from the origin; O8 multi-paths built by move_to / "
+    "extend_multi_path / to_multi_path / append_path of a MULTI-path (sub-paths starting with a curve) through every consumer of "
+    "has_sub_paths (flag vs commands, single_paths, to_polylines3d, to_lwpolylines, to_lines, to_hatches, to_splines_and_polylines) and the "
+    "numpy twin (NumpyPath2d flattening / sub_paths / extents / transform_inplace, NumpyPoints2d)."
 )
 TRUSTED_BASE = [
     "hand model Model/Flatten.lean of the four flattening methods, tied to the code by the correspondence streams and by the re-extracted "
@@ -44,6 +49,8 @@ TRUSTED_BASE = [
     "hand model Model/FlattenPath.lean of ezdxf.path.Path (element view; the flat storage is derived and compared with the private fields "
     "of the real object after every operation, X5), of Path._approximate/flattening, add_bezier4p/3p, the bulge_to assembly, from_vertices: "
     "tied by X5-X9 and by the statement text of 17 Path methods and 8 tools functions re-extracted on every run (tie_path_methods, tie_path_tools)",
+    "hand model of npshapes.NumpyPath2d in Model/FlattenPath.lean (flat arrays, running index as the list of unread rows): flattening loop, "
+    "sub_paths index walk, reverse, extend; tied by X12/X13 and the statement text of 13 methods + the CMD constants (tie_numpy_path)",
     "make_path dispatch: the LIVE singledispatch registry and the builder calls of every handler are regenerated (tie_make_path_dispatch, "
     "make_path_dispatch_covered); what the handlers compute BEFORE they call a builder (construction tools, OCS) is not modelled (oracle O5, X9)",
     "Vec3 arithmetic (lerp, distance, project, isclose) is component-wise as modelled by V3 (properties C10/C11)",
@@ -84,6 +91,8 @@ SRC_FILES = [
     "src/ezdxf/math/construct3d.py", "src/ezdxf/path/path.py", "src/ezdxf/path/converter.py", "src/ezdxf/path/tools.py",
     "src/ezdxf/path/nesting.py", "src/ezdxf/npshapes.py",
 ]
+NUMPY_PATH_METHODS = ["__init__", "flattening", "sub_paths", "reverse", "extend", "to_path", "has_sub_paths", "commands",
+                      "start", "end", "is_closed", "clockwise", "counter_clockwise"]
 
 
 # ====================================================================== regenerate (T-ast extraction)
@@ -447,7 +456,7 @@ MODELLED_BUILDERS = ["tools.add_2d_polyline", "tools.add_spline", "tools.add_ell
                      "tools.to_multi_path", "from_hatch_boundary_path", "make_path", "Path"]
 
 
-def path_kernels(path_src: str, tools_src: str, conv_src: str) -> dict:
+def path_kernels(path_src: str, tools_src: str, conv_src: str, np_src: str) -> dict:
     """statement text of the Path methods / tools functions the hand model Model/FlattenPath.lean copies"""
     tree = ast.parse(path_src)
     methods = []
@@ -462,13 +471,20 @@ def path_kernels(path_src: str, tools_src: str, conv_src: str) -> dict:
     tools.append(("from_vertices", _stmts(_body(_find_method(ctree, None, "from_vertices")))))
     fhe = _find_method(ctree, None, "from_hatch_edge_path")
     tools.append(("from_hatch_edge_path.loops", _stmts([st for st in _body(fhe) if not isinstance(st, ast.FunctionDef)])))
+    ntree = ast.parse(np_src)
+    numpy_methods = [(name, _stmts(_body(_find_method(ntree, "NumpyPath2d", name)))) for name in NUMPY_PATH_METHODS]
+    consts = {}
+    for n in ntree.body:
+        if isinstance(n, ast.Assign) and isinstance(n.targets[0], ast.Name) and n.targets[0].id.startswith("CMD_"):
+            consts[n.targets[0].id] = _u(n.value)
+    numpy_methods.append(("CMD constants", "; ".join(f"{k} = {v}" for k, v in sorted(consts.items()))))
     tol = None
     for n in ttree.body:
         if isinstance(n, ast.Assign) and isinstance(n.targets[0], ast.Name) and n.targets[0].id == "IS_CLOSE_TOL":
             tol = _u(n.value)
     if tol is None:
         raise Extract("IS_CLOSE_TOL not found in path/tools.py")
-    return {"methods": methods, "tools": tools, "is_close_tol": tol}
+    return {"methods": methods, "tools": tools, "is_close_tol": tol, "numpy": numpy_methods}
 
 
 def make_path_dispatch(conv_src: str):
@@ -523,7 +539,8 @@ def regenerate(ctx):
 
     pvis = inspect.signature(pv.Vec3.isclose).parameters
     arc = arc_kernels(src["src/ezdxf/math/arc.py"])
-    pk = path_kernels(src["src/ezdxf/path/path.py"], src["src/ezdxf/path/tools.py"], src["src/ezdxf/path/converter.py"])
+    pk = path_kernels(src["src/ezdxf/path/path.py"], src["src/ezdxf/path/tools.py"], src["src/ezdxf/path/converter.py"],
+                      src["src/ezdxf/npshapes.py"])
     dispatch, builders = make_path_dispatch(src["src/ezdxf/path/converter.py"])
     import ezdxf.path.path as _pp
     from ezdxf.path.commands import Command as _Cmd
@@ -569,6 +586,7 @@ def pyxIscloseBody : String := {_lean_str(iso_txt)}
 
 {_pairs("pathMethods", "ezdxf.path.Path: the methods Model/FlattenPath.lean copies (statement text)", pk["methods"])}
 {_pairs("pathTools", "path/tools.py + converter.from_vertices: the functions Model/FlattenPath.lean copies", pk["tools"])}
+{_pairs("numpyPathMethods", "npshapes.NumpyPath2d: the methods Model/FlattenPath.lean copies (statement text)", pk["numpy"])}
 {_pairs("makePathDispatch", "LIVE registry of the singledispatch function make_path: entity class -> handler", dispatch)}
 /-- path builders called by every make_path handler (from the handler source) -/
 def makePathBuilders : List (String × List String) :=
@@ -1584,7 +1602,112 @@ def correspond_hatch_edges(ctx):
     ctx.correspond(stream, "C14", cases, build=_deps_once(ctx))
 
 
+# ====================================================================== correspondence: NumpyPath2d (session 4)
+def show_np(np_path) -> str:
+    return (",".join(str(int(c)) for c in np_path._commands) + "!"
+            + ",".join(pt((float(v[0]), float(v[1]), 0.0)) for v in np_path._vertices))
+
+
+def multi_path_histories(ctx, n, salt="np-hist"):
+    """histories that build multi-paths whose sub-paths begin with a line, a quadratic or a cubic curve (directly after
+    the MOVE_TO), incl. trailing MOVE_TO, MOVE_TO as first command, closed sub-paths; dyadic points"""
+    rng = ctx.rng(salt)
+    for i in range(n):
+        flat = rng.random() < 0.7
+        pool = [_dpt(rng, flat=flat) for _ in range(rng.randint(2, 5))]
+
+        def pnt():
+            return rng.choice(pool) if rng.random() < 0.4 else _dpt(rng, flat=flat)
+
+        ops = [("N", pnt())]
+        if rng.random() < 0.1:
+            ops.append(("M", pnt()))
+        for s_ in range(rng.randint(1, 4)):
+            if s_ > 0:
+                ops.append(("M", pnt()))
+            for k in range(rng.randint(0 if s_ > 0 else 1, 4)):
+                c = rng.choice(["L", "Q", "C"]) if k == 0 else rng.choice(["L", "L", "Q", "C"])
+                ops.append((c,) + tuple(pnt() for _ in range({"L": 1, "Q": 2, "C": 3}[c])))
+            if rng.random() < 0.3:
+                ops.append(("S",))
+        if rng.random() < 0.15:
+            ops.append(("M", pnt()))
+        yield ops
+
+
+def _np_flat_real(np_path, d, segs, twin):
+    import ezdxf.npshapes as nps
+    import ezdxf.math._bezier4p as m4
+    import ezdxf.math._bezier3p as m3
+    import ezdxf.acc.bezier4p as a4
+    import ezdxf.acc.bezier3p as a3
+
+    old = nps.Bezier4P, nps.Bezier3P
+    nps.Bezier4P, nps.Bezier3P = (m4.Bezier4P, m3.Bezier3P) if twin == "py" else (a4.Bezier4P, a3.Bezier3P)
+    try:
+        return "ok " + ",".join(pt((float(v.x), float(v.y), 0.0)) for v in bounded(np_path.flattening(d, segs)))
+    except Exception as e:  # noqa
+        return impl_error(e)
+    finally:
+        nps.Bezier4P, nps.Bezier3P = old
+
+
+def correspond_numpy_path(ctx):
+    from ezdxf.npshapes import NumpyPath2d
+
+    st1 = "X12 NumpyPath2d(path): arrays, sub_paths(), reverse(), has_sub_paths, to_path(), extend()"
+    st2 = "X13 NumpyPath2d.flattening of generated multi-paths (sub-paths starting with line / curve3 / curve4, both twins)"
+    rng = ctx.rng("np-flat")
+    dists = [2.0 ** -k for k in range(0, 8)] + [0.1, 0.01, 3.0]
+    cases, reqs, fcases = [], [], []
+    built = []
+    for ops in multi_path_histories(ctx, ctx.n(900, 8000)):
+        p, _ = run_ops_real(ops)
+        npp = NumpyPath2d(p)
+        built.append((ops, p))
+        subs = "|".join(show_np(x) for x in npp.sub_paths())
+        rev = show_np(npp.clone().reverse())
+        resp = show_np(npp) + "#" + subs + "#" + rev + "#" + ("1" if npp.has_sub_paths else "0") + "#" + show_path(npp.to_path())
+        first_cmds = [o[0] for o, prev in zip(ops[1:], ops[:-1]) if prev[0] == "M"]
+        kind = "sub-path starts with curve" if any(c in ("Q", "C") for c in first_cmds) else ("multi" if npp.has_sub_paths else "single")
+        ctx.hist(st1, kind)
+        cases.append(("npstate|" + ops_txt(ops), resp, len(ops) > 2))
+        if len(fcases) < 2 * ctx.n(500, 4000):
+            d = rng.choice(dists)
+            segs = rng.choice((1, 2, 4, 4, 8))
+            txt = ops_txt(ops)
+            for twin in ("py", "pyx"):
+                mk = (lambda dd, twin=twin, segs=segs, txt=txt: f"npflat|{twin}|{fs(dd)}|{segs}|{txt}")
+                reqs.append((kind, mk, d))
+                fcases.append((kind, mk(Fr(d)), _np_flat_real(npp, d, segs, twin), p.has_curves))
+    # extend / concatenate
+    for i in range(ctx.n(300, 2500)):
+        group = [built[rng.randrange(len(built))] for _ in range(rng.randint(1, 4))]
+        if rng.random() < 0.5 and len(group) > 1:
+            # make the next path start where the previous ends: joined without MOVE_TO
+            o0, p0 = group[0]
+            o1 = [("N", tuple(p0.end))] + [("L", _dpt(rng, flat=True))]
+            group[1] = (o1, run_ops_real(o1)[0])
+        nps_ = [NumpyPath2d(p) for _, p in group]
+        first = nps_[0].clone()
+        try:
+            first.extend(nps_[1:])
+        except Exception:  # noqa  (first path without commands and without vertices cannot happen here)
+            continue
+        ctx.hist(st1, "extend")
+        cases.append(("npext|" + "^".join(ops_txt(o) for o, _ in group), show_np(first), True))
+    ctx.correspond(st1, "C14", cases, build=_deps_once(ctx))
+    keep = band_filter(ctx, st2, reqs)
+    final = []
+    for k, (kind, req, resp, nt) in zip(keep, fcases):
+        if k:
+            ctx.hist(st2, kind)
+            final.append((req, resp, nt))
+    ctx.correspond(st2, "C14", final, build=_deps_once(ctx))
+
+
 def correspond(ctx):
+    correspond_numpy_path(ctx)
     correspond_hatch_edges(ctx)
     correspond_ellipse_prelude(ctx)
     correspond_make_path_hook(ctx)
@@ -2746,7 +2869,141 @@ def oracle_far_circle(ctx):
                      f"[{ymin!r}, {ymax!r}] around the centre line, expected [-{r!r}, {r!r}] ({len(P)} commands)", rep)
 
 
+def oracle_multi_consumers(ctx):
+    """multi-paths built in every way the API offers (move_to, extend_multi_path, to_multi_path, append_path of a MULTI-path,
+    sub-paths that begin with a curve) and everything that consumes `has_sub_paths` / the command stream: the flag, single_paths,
+    to_polylines3d / to_lwpolylines / to_lines / to_hatches / to_splines_and_polylines, NumpyPath2d (flattening, sub_paths)."""
+    from ezdxf.path import (Path, Command, make_path, to_polylines3d, to_lwpolylines, to_lines, to_hatches,
+                            to_splines_and_polylines, to_multi_path, single_paths, from_hatch)
+    from ezdxf.npshapes import NumpyPath2d
+
+    st = "O8 multi-paths (incl. append_path of a multi-path, sub-paths starting with a curve) through every consumer of has_sub_paths; NumpyPath2d twin"
+    rng = ctx.rng("multi-consumers")
+    for i in range(ctx.n(160, 2500)):
+        planar = rng.random() < 0.7
+        parts = []
+        while len(parts) < 2:  # one call = one common z for planar paths
+            parts = [p for p in random_paths(ctx, rng, planar) if len(p)]
+        if rng.random() < 0.5:  # make a sub-path begin with a curve
+            q = Path(parts[-1].start)
+            e_ = tuple(parts[-1].end)
+            if rng.random() < 0.5:
+                q.curve4_to(e_, tuple(parts[0].end), tuple(parts[0].start))
+            else:
+                q.curve3_to(e_, tuple(parts[0].end))
+            parts[-1] = q
+        how = rng.choice(["to_multi_path", "extend", "append-multi", "append-multi", "move_to"])
+        if how == "to_multi_path":
+            mp = to_multi_path(parts)
+        elif how == "extend":
+            mp = parts[0].clone()
+            mp.extend_multi_path(to_multi_path(parts[1:]))
+        elif how == "append-multi":
+            # head.append_path(tail) with a MULTI-path tail: a bridging line to tail.start, then the tail with its MOVE_TOs
+            mp = parts[0].clone()
+            tail = to_multi_path(parts[1:])
+            bridge = not mp.end.isclose(tail.start)
+            mp.append_path(tail)
+            first = parts[0].clone()
+            if bridge:
+                first.line_to(tail.start)
+            subs_t = list(tail.sub_paths())
+            for c in subs_t[0].commands():
+                first.append_path_element(c)
+            parts = [first] + subs_t[1:]
+        else:
+            mp = parts[0].clone()
+            for q in parts[1:]:
+                mp.move_to(q.start)
+                for c in q.commands():
+                    mp.append_path_element(c)
+        d = rng.choice(TOLERANCES)
+        segs = rng.choice([1, 2, 4, 8])
+        size = _scale(*[c for p in parts for v in p.control_vertices() for c in v])
+        tol = 1e-9 * size
+        rep = {"op": "multi-consumers", "id": str(i), "how": how, "planar": planar, "distance": d, "segments": segs,
+               "parts": [[tuple(map(float, p.start))] + [(c.type.name,) + tuple(tuple(map(float, v)) for v in c) for c in p.commands()] for p in parts]}
+        ctx.hist(st, how)
+        ctx.count(st, repr(rep), True)
+        flats = [_verts(p.flattening(d, segs)) for p in parts]
+
+        def fail(what, msg):
+            ctx.fail(f"multi/{what}/{how}/{i}", f"{what} ({how}): {msg}; input {str(rep)[:700]}", rep)
+
+        n_moves = sum(1 for c in mp.command_codes() if c == Command.MOVE_TO)
+        if mp.has_sub_paths != (n_moves > 0):
+            fail("has_sub_paths", f"has_sub_paths is {mp.has_sub_paths} but the path has {n_moves} MOVE_TO commands")
+        sp = list(single_paths([mp]))
+        if len(sp) != len(parts):
+            fail("single_paths", f"{len(sp)} single paths for {len(parts)} sub-paths")
+        if not _same(_verts(mp.flattening(d, segs)), [v for f in flats for v in f], tol):
+            fail("flattening", "flattening of the multi-path is not the concatenation of its parts")
+        ents = list(to_polylines3d([mp], distance=d, segments=segs))
+        back = [_verts(make_path(e).flattening(d, segs)) for e in ents]
+        # a sub-path whose flattening collapses to one point (closed curve inside the tolerance) comes back empty: from_vertices
+        if len(back) != len(parts) or any(not _same(_dedupe(a), _dedupe(b), tol) for a, b in zip(flats, back) if len(_dedupe(a)) > 1):
+            fail("to_polylines3d", f"{len(back)} polylines for {len(parts)} sub-paths / vertices differ (a gap drawn as a segment?)")
+        lines = list(to_lines([mp], distance=d, segments=segs))
+        want = sum(len(f) - 1 for f in flats)
+        if len(lines) != want:
+            fail("to_lines", f"{len(lines)} LINE entities, the sub-paths have {want} chords")
+        try:
+            sents = list(to_splines_and_polylines([mp]))
+            if not sents:
+                fail("to_splines_and_polylines", "no entities")
+        except Exception as ex:  # noqa
+            fail("to_splines_and_polylines", f"raised {type(ex).__name__}: {ex}")
+        if planar:
+            ents = list(to_lwpolylines([mp], distance=d, segments=segs))
+            if len(ents) != len(parts):
+                fail("to_lwpolylines", f"{len(ents)} LWPOLYLINE entities for {len(parts)} sub-paths")
+            try:
+                hs = list(to_hatches([mp.clone()], edge_path=False, distance=d, segments=segs))
+                got = [bp for h in hs for bp in from_hatch(h)]
+                if len(got) != len(parts):
+                    fail("to_hatches", f"{len(parts)} sub-paths went in, {len(got)} boundary paths came back")
+            except Exception as ex:  # noqa
+                fail("to_hatches", f"raised {type(ex).__name__}: {ex}")
+        if not planar:
+            continue  # NumpyPath2d projects to the xy-plane BEFORE flattening: only comparable for z = const
+        # NumpyPath2d twin: flattening == Path.flattening (z dropped) == concatenation of its own sub-paths
+        npp = NumpyPath2d(mp)
+        nv = [key3(v) for v in npp.flattening(d, segs)]
+        if not _same(nv, [(a, b, 0.0) for f in flats for a, b, _ in f], tol):
+            fail("NumpyPath2d-flattening", "NumpyPath2d.flattening differs from Path.flattening of the same multi-path")
+        nsub = npp.sub_paths()
+        if len(nsub) != len(parts) or any(not _same([key3(v) for v in a.flattening(d, segs)], [(x, y, 0.0) for x, y, _ in f], tol)
+                                          for a, f in zip(nsub, flats)):
+            fail("NumpyPath2d-sub_paths", "NumpyPath2d.sub_paths() differ from the parts")
+        if npp.has_sub_paths != (n_moves > 0):
+            fail("NumpyPath2d-has_sub_paths", "flag differs from the commands")
+        # NumpyPoints2d / NumpyShape2d: vertices, extents, transform_inplace against Path.transform (2D affine map)
+        from ezdxf.npshapes import NumpyPoints2d
+        from ezdxf.math import Matrix44, Vec2
+
+        cvs = mp.control_vertices()
+        pts2 = NumpyPoints2d(cvs)
+        if [tuple(v) for v in pts2.vertices()] != [(v.x, v.y) for v in cvs] or len(pts2) != len(cvs):
+            fail("NumpyPoints2d-vertices", "vertices() differ from the projected input points")
+        lo, hi = pts2.extents()
+        lo2, hi2 = npp.extents()
+        xs, ys = [v.x for v in cvs], [v.y for v in cvs]
+        if (tuple(lo), tuple(hi)) != ((min(xs), min(ys)), (max(xs), max(ys))) or (tuple(lo2), tuple(hi2)) != (tuple(lo), tuple(hi)):
+            fail("NumpyShape2d-extents", "extents are not the min/max of the control vertices")
+        m = Matrix44.z_rotate(rng.uniform(0, 6.28)) @ Matrix44.scale(rng.uniform(0.5, 2), rng.uniform(0.5, 2), 1) @ Matrix44.translate(rng.uniform(-9, 9), rng.uniform(-9, 9), 0)
+        want = [Vec2(v) for v in mp.transform(m).control_vertices()]
+        t1, t2 = npp.clone(), pts2.clone()
+        t1.transform_inplace(m)
+        t2.transform_inplace(m)
+        if any(not a.isclose(b, abs_tol=1e-9 * size) for a, b in zip(t1.vertices(), want)) or \
+                any(not a.isclose(b, abs_tol=1e-9 * size) for a, b in zip(t2.vertices(), want)) or len(t1.vertices()) != len(want):
+            fail("NumpyShape2d-transform", "transform_inplace differs from Path.transform")
+        if [int(c) for c in t1.command_codes()] != [int(c) for c in mp.command_codes()]:
+            fail("NumpyPath2d-transform-commands", "commands changed by transform_inplace")
+
+
 def oracle(ctx):
+    oracle_multi_consumers(ctx)
     oracle_far_circle(ctx)
     oracle_arcs(ctx)
     oracle_bezier(ctx)
